@@ -288,7 +288,7 @@ def alpha_eq(a, b, m=None):
         return a[1] == b[1] and m.get(a[2], a[2]) == b[2] and alpha_eq(a[3], b[3], m) and alpha_eq(a[4], b[4], m)
     if k == "block":
         return alpha_eq(a[1], b[1], {})
-    if k in ("unk", "punk", "leaf", "call", "eof"):
+    if k in ("unk", "punk", "leaf", "call", "eof", "panic"):
         return a == b
     # pexp forms with children
     return all(alpha_eq(x, y, {}) if isinstance(x, tuple) else x == y for x, y in zip(a[1:], b[1:]))
@@ -565,7 +565,7 @@ class Exec:
         if name in ("panic", "unreachable", "todo", "unimplemented"):
             s = self.site(cx, pos)
             self.panic_sites.add(s)
-            return ("unk", s + ":" + name, ())
+            return ("panic", s + ":" + name)
         if name in self.S.macros and name in ("label", "labelr"):
             out = R.expand_macro(self.S.macros[name], toks)
             if out is None:
@@ -893,7 +893,7 @@ class Exec:
                     return k(rv.val, env)
                 s = self.site(cx, pos)
                 self.panic_sites.add(s)
-                return ("unk", s + ":unwrap", ())
+                return ("panic", s + ":unwrap")
             raise Unknown("method %s on a parser result" % name)
         if isinstance(rv, (SomeV, NoneV)):
             some = isinstance(rv, SomeV)
@@ -1357,7 +1357,7 @@ class Exec:
                 return key
             n = 2
             while True:
-                k2 = "%s#%d" % (key, n)
+                k2 = "%s~%d" % (key, n)
                 b2 = self.rename_call(body, key, k2)
                 if k2 not in self.aux or self.aux[k2] == b2:
                     if k2 not in self.aux:
@@ -1450,7 +1450,8 @@ class Exec:
             return ("app", ("call", key), v, a, b, ("ret", "ok", a), ("ret", "asis", b), None)
 
         def guard(kind_, y, k):
-            return ("guard", "nom:" + site + ":" + kind_, y, ("ret", "err", y), k) if self.S.guards.get(kind_, False) else k
+            return ("guard", "nom:" + gkey[0], y, ("ret", "err", y), k) if self.S.guards.get(kind_, False) else k
+        gkey = [base]
 
         def build(key):
             loopk = key + "$more"
@@ -1477,7 +1478,8 @@ class Exec:
         # find a free (or identical) name
         n = 1
         while True:
-            key = base if n == 1 else "%s#%d" % (base, n)
+            key = base if n == 1 else "%s~%d" % (base, n)
+            gkey[0] = key
             defs = build(key)
             if all(k2 not in self.aux or self.aux[k2] == ("block", b) for k2, b in defs):
                 for k2, b in defs:
